@@ -380,8 +380,15 @@ def _bg_table(variant):
             ev = SE.SymEval(query, budget=20000)
             body = vh['body']
             try:
+                def _kret(vt, env=None):
+                    # an early `return Ok(..)` is a successful exit without (further) effect, like falling off the end;
+                    # `return Err(..)` / `?` reject the line and are not rows of the table
+                    x = strip(vt[1]) if vt and vt[0] == 'v' else None
+                    if isinstance(x, dict) and x.get('k') == 'call' and x['f'].get('k') == 'path' and x['f'].get('name') == 'Ok':
+                        return ('v', {'k': 'end'})
+                    return ('v', {'k': 'returned'})
                 tree = ev.seq(list(body.get('stmts', [])), body.get('expr'), {}, lambda env, tail: ('v', {'k': 'end'}),
-                              kret=lambda vt, env=None: ('v', {'k': 'returned'}))
+                              kret=_kret)
             except SE.Stop:
                 last_why = 'parser too large to evaluate'
                 continue
@@ -695,8 +702,40 @@ def _version_line_table(ctx, hfn):
 
 _version_line_table.positive = True
 row('C05', TVL, 'version-line-decisions', _version_line_table)
-row('C05', TVL, 'number-after-last-v', _contains(OR(M('rsplit', L('line'), K('v')), M('rsplit_once', L('line'), K('v')), M('rsplitn', L('line'), ANY(), K('v'))),
-              'the version number is what follows the last `v`'))
+def _number_after_last_v(ctx, hfn):
+    """the version number is the text after the last `v`: the first item of a reverse split, or the second half of
+    `rsplit_once('v')`"""
+    LINE = L('line')
+    if find(ctx, hfn['body'], OR(M('next', M('rsplit', LINE, K('v'))), M('next', M('rsplitn', LINE, K(2), K('v'))))):
+        return True, '', None
+    if find(ctx, hfn['body'], M('rsplit_once', LINE, K('v'))):
+        # the half that is kept must be the one after the separator
+        second = []
+
+        def v(n, anc):
+            if n.get('k') == 'ptuple' and len(n.get('pats', [])) == 2:
+                a, b = n['pats']
+                if a.get('k') == 'wild' and b.get('k') == 'bind':
+                    second.append(n)
+            if n.get('k') == 'field' and str(n.get('n')) == '1':
+                second.append(n)
+        def deep(x):
+            if isinstance(x, dict):
+                v(x, [])
+                for y in x.values():
+                    deep(y)
+            elif isinstance(x, list):
+                for y in x:
+                    deep(y)
+        deep(hfn['body'])
+        if second:
+            return True, '', second[0].get('ln')
+        return False, 'the text before the last `v` is taken as the version number', None
+    return False, 'the version number is what follows the last `v` not found (reverse split on `v`, first item)', None
+
+
+_number_after_last_v.positive = True
+row('C05', TVL, 'number-after-last-v', _number_after_last_v)
 row('C05', 'decode::DecodeBeatmap::decode', 'default-version',
     _contains(M('unwrap_or', ANY(), K(14)), 'a missing/unreadable version means the latest version'))
 row('C05', 'decode::parse_first_section', 'failed-version-line-may-open-a-section',
@@ -1103,6 +1142,46 @@ row('C14', HITOBJ, 'hold-end>=start', _hold_end)
 row('C14', HITOBJ, 'hold-duration',
     _struct_init('section::hit_objects::hold::HitObjectHold', 'duration', BIN('Sub', L('end_time'), L('start_time'))))
 
+def _suffix_rejects_only_unparsable(ctx, hfn):
+    """the sample suffix `bank:addition bank:custom index:volume:file` of a hit-object line is written by the encoder as
+    the stored integers (K7), whatever they are -- also values inherited from a sample point; the suffix parser must
+    therefore have no rejection of its own: every error exit is the `?` of a number parse or the missing second field"""
+    bad = []
+
+    def is_err_value(e):
+        e = strip(e)
+        if isinstance(e, dict) and e.get('k') == 'mcall' and e.get('name') == 'into':
+            e = strip(e['recv'])
+        return isinstance(e, dict) and e.get('k') == 'call' and e['f'].get('k') == 'path' and e['f'].get('name') == 'Err'
+
+    def v(n, anc):
+        if 'QuestionMark' in (n.get('exp') or ''):
+            return
+        if n.get('k') == 'ret' and 'e' in n and is_err_value(n['e']) and not any('QuestionMark' in (a.get('exp') or '') for a in anc):
+            bad.append(n)
+    for dpt in (0, 1, 2):
+        vh = hfn if dpt == 0 else H.inlined_fn(ctx.facts, hfn, depth=dpt)
+        H.walk(vh['body'], v)
+        tail = vh['body'].get('expr') if vh['body'].get('k') == 'block' else None
+        if tail is not None:
+            import symeval as SE
+            try:
+                t = SE.SymEval(None, budget=3000).value(tail, {})
+                for _p, l in SE.leaves(t):
+                    if is_err_value(l):
+                        bad.append(l if isinstance(l, dict) else {})
+            except SE.Stop:
+                pass
+        if bad:
+            break
+    ok = not bad
+    return ok, '' if ok else ('the sample suffix parser rejects a value the number parser accepted: the encoder writes the stored '
+                              'integers as they are (a custom index or volume inherited from a sample point included), so it can '
+                              'emit a hit-object line this parser refuses'), bad[0].get('ln') if bad else None
+
+
+row('C04', _HS + 'SampleBankInfo::read_custom_sample_banks', 'sample-suffix-rejects-only-unparsable', _suffix_rejects_only_unparsable)
+row('C14', _HS + 'SampleBankInfo::read_custom_sample_banks', 'sample-suffix-rejects-only-unparsable', _suffix_rejects_only_unparsable)
 CONVP = 'section::hit_objects::decode::HitObjectsState::convert_points'
 _SPLIT_SHAPE = {
     'split:repeated-point':
